@@ -390,6 +390,26 @@ def rdata_enum_arms(text):
         refuse(W, f"into_owned: {io[:240]}")
     return {'typeCode': ['variant-constant', 'from-carried-code', 'carried-type'], 'intoOwned': ['same-variant-owned', 'same-code-owned-data', 'same-type']}
 
+# ------------------------------------------------------------------ mod.rs: QTYPE / QCLASS to their codes (what the writers emit)
+def qcodes_out(text):
+    W = 'mod.rs: impl From<QTYPE> for u16 / impl From<QCLASS> for u16'
+    out = {}
+    for ty, inner in (('QTYPE', r'ty\.into\(\)'), ('QCLASS', r'class as u16')):
+        b = block_after(text, rf'impl From<{ty}>for u16', W)
+        m = re.match(rf'fn from\(val:{ty}\)->Self\{{match val\{{(.*)\}}\}}$', b)
+        if not m: refuse(W, f"{ty}: {b[:200]}")
+        arms = []
+        for arm in [a for a in m.group(1).split(',') if a]:
+            a = re.match(rf'{ty}::(\w+)(?:\((\w+)\))?=>(.+)$', arm)
+            if not a: refuse(W, f"{ty}: arm not recognised: {arm[:80]}")
+            if a.group(2):
+                if not re.fullmatch(inner.replace('ty', a.group(2)).replace('class', a.group(2)), a.group(3)): refuse(W, f"{ty}: wrapper arm not a plain conversion of its payload: {arm[:80]}")
+                arms.append((a.group(1), 'inner'))
+            else:
+                arms.append((a.group(1), str(num(a.group(3)))))
+        out[ty] = arms
+    return out
+
 # ------------------------------------------------------------------ packet.rs: MessageWriter (positions relative to the message)
 def message_writer(text):
     W = 'packet.rs: impl Write / Seek for MessageWriter'
@@ -564,6 +584,8 @@ def generate(repo):
     dp = attempt('rdata.parse', need('m', rdata_parse))
     pp = attempt('packet.parse', need('p', packet_parse))
     pw = attempt('packet.write', need('p', packet_write))
+    files['modrs'] = read('simple-dns/src/dns/mod.rs')
+    qo = attempt('codes.question_codes_out', need('modrs', qcodes_out))
     mw = attempt('packet.message_writer', need('p', message_writer))
     ea = attempt('rdata.enum_arms', need('m', rdata_enum_arms))
     ex = attempt('mdns.expiration', need('mdns', expiration))
@@ -662,6 +684,9 @@ def generate(repo):
           "/-- `MessageWriter` (the writer `write_compressed_to` wraps its output in): `write` and `flush` forward to the inner writer,",
           "`seek(Start(o))` goes to start + o and every seek answers relative to start -/",
           "def messageWriter : Option (List String) := " + ('none' if mw is None else f"some {strs(mw)}"),
+          "/-- `From<QTYPE> for u16` and `From<QCLASS> for u16` (the codes the writers emit): (variant, code; `none` for the arm that converts the wrapped TYPE / CLASS) -/",
+          "def qtypeToCode : Option (List (String × Option Nat)) := " + ('none' if qo is None else 'some [' + ', '.join(f'({q(a)}, {"none" if b == "inner" else "some " + b})' for a, b in qo['QTYPE']) + ']'),
+          "def qclassToCode : Option (List (String × Option Nat)) := " + ('none' if qo is None else 'some [' + ', '.join(f'({q(a)}, {"none" if b == "inner" else "some " + b})' for a, b in qo['QCLASS']) + ']'),
           "/-- `RData::type_code` and `RData::into_owned` (macro `rdata_enum!`): the typed variants, `NULL(code, data)`, `Empty(type)` -/",
           "def rdataTypeCodeArms : Option (List String) := " + ('none' if ea is None else f"some {strs(ea['typeCode'])}"),
           "def rdataIntoOwnedArms : Option (List String) := " + ('none' if ea is None else f"some {strs(ea['intoOwned'])}"),
